@@ -221,4 +221,14 @@ def replay(ctx, case):
         ctx.judged(['contract', case['n']], True)
         return
     install_contract(ctx)
-    check_pair(ctx, case['kind'], case['n'], case['m'], case['op'], case['parser'], case['lexer'], [case['k']] if case.get('k') is not None else [], case.get('rep'))
+    # the same grammar is compiled several times in this process, alone and after neighbouring bounds: a verdict that
+    # depends on what was compiled before (memoised factorisations, shared helper caches) must reproduce here
+    ks = [case['k']] if case.get('k') is not None else []
+    for _ in range(3):
+        check_pair(ctx, case['kind'], case['n'], case['m'], case['op'], case['parser'], case['lexer'], ks, case.get('rep'))
+    if case['op'] == '~':
+        for dn, dm in ((0, 1), (1, 1), (0, -1), (2, 2)):
+            if 0 <= case['n'] + dn <= case['m'] + dm:
+                check_pair(ctx, case['kind'], case['n'] + dn, case['m'] + dm, '~', case['parser'], case['lexer'], [], case.get('rep'))
+        for _ in range(2):
+            check_pair(ctx, case['kind'], case['n'], case['m'], case['op'], case['parser'], case['lexer'], ks, case.get('rep'))
